@@ -263,7 +263,7 @@ def run(tier):
             prev_user = lay.as_user
         jobs.append({"id": bi, "fresh": True, "steps": steps, "timeout": 600})
     _tick("files written")
-    results = run_jobs(jobs, workers=WORKERS, job_timeout=600)
+    results = run_jobs(jobs, workers=WORKERS if quick else 8, job_timeout=600)
     _tick("replayed")
 
     nviol = 0
@@ -308,7 +308,7 @@ def run(tier):
     rep.extra["exhaustive_scope"] = "every layout of the stated parameter space was generated by TLC and replayed"
     rep.assumptions = ["TLC", "rendering of the abstract layout to module files", "LeafAnswer projection of the harness",
                        "outcomes the property leaves open are allowed either way (double import of one name; M:G with G only imported into M)"]
-    if not rep.violations and not rep.known_hits:
+    if not rep.violations:          # replay re-renders a layout from its vector
         shutil.rmtree(root, ignore_errors=True)
     return rep.finish()
 
